@@ -18,8 +18,10 @@ def spine_rule(g):
         cfg["operands-full-match"] = g.chance(0.5)
     if g.chance(0.3):
         cfg["mnemonics-full-match"] = g.chance(0.5)
-    inames = ["&i", "&j"]
-    onames = ["&a", "&b", "&c"]
+    # some name sets contain names that are prefixes / substrings of one another (`&r10` and `&r1`): every name is its own group
+    inames, onames = g.pick([(["&i", "&j"], ["&a", "&b", "&c"])] * 3 + [(["&i1", "&i"], ["&r10", "&r1", "&r"]),
+                                                                          (["&in", "&n"], ["&ab", "&a", "&b"]),
+                                                                          (["&x_1", "&x_12"], ["&c1", "&c10", "&1"])])
     defined = set()
     pat = []
 
